@@ -68,7 +68,9 @@ pub fn render_file(out: &Value) -> String {
         }
         s.push_str(&tok_text(&item["tok"]));
     }
-    s.push('\n');
+    // how the file ends is layout too: a line break, nothing at all, a comment that the end of the file closes, ...
+    const ENDINGS: [&str; 6] = ["\n", "", " // the end", "\n/* the end */", "\r\n", "\n\n\t"];
+    s.push_str(ENDINGS[((hash_str(&s) >> 4) % ENDINGS.len() as u64) as usize]);
     s
 }
 
